@@ -1,7 +1,7 @@
 (* C16 — the Python decoder detects truncated input.  Statements only. *)
 From Coq Require Import String ZArith List Bool.
 From FcpV Require Import Base.Bits Schema.Types Wire.Wire Wire.WireProofs Py.PySerde Py.PySerdeProofs.
-From FcpV Require Import Py.BufferLib gen.PyBuffer Py.BufferProofs.
+From FcpV Require Import Py.BufferLib gen.PyBuffer Py.BufferProofs Corr.Serde Corr.SerdeCapProofs.
 Import ListNotations.
 Open Scope Z_scope.
 
@@ -65,3 +65,17 @@ Print Assumptions buffer_read_bytes_overruns_exactly_when_short.
 Example c16_buffer_nonvacuous :
   py_read_bytes (mk [1; 2; 3] 4) 3 = PRaise PyValueError /\ py_read_bytes (mk [1; 2; 3] 4) 2 = POk (mk [1; 2; 3] 20, [32; 48]).
 Proof. split; vm_compute; reflexivity. Qed.
+
+(* ---- nothing is fabricated: whenever the decoder returns a value - on ANY input, canonical or not - the bits it consumed
+   were there (what is left plus the least the type needs is at most what was given) ---- *)
+Theorem decode_never_reads_beyond_input :
+  forall t bs v r, py_dec t bs = Ok (v, r) -> (length r + min_bits t <= length bs)%nat.
+Proof. exact (gdec_consumes py_sdec). Qed.
+Print Assumptions decode_never_reads_beyond_input.
+
+(* the executable decoder the correspondence evaluates on corrupted input (announced counts capped at the bits left + 1) is
+   the model decoder itself whenever dynamic-array elements occupy at least one bit *)
+Theorem correspondence_decoder_is_the_model :
+  forall t, dyn_positive t = true -> forall bs, gdec_capped py_sdec t bs = py_dec t bs.
+Proof. exact (gdec_capped_is_gdec py_sdec). Qed.
+Print Assumptions correspondence_decoder_is_the_model.
